@@ -142,6 +142,9 @@ fn may_match_ellipsis_impl<'p, 't: 'p, D: Doc + 't>(
     return Some(ControlFlow::Continue);
   }
   loop {
+    // the candidate is only tried here: if it does not match it goes to the ellipsis,
+    // and the bindings made during the trial must not stay behind
+    let saved = agg.clone();
     if matches!(
       match_node_impl(
         goal_children.peek().unwrap(),
@@ -161,6 +164,7 @@ fn may_match_ellipsis_impl<'p, 't: 'p, D: Doc + 't>(
       )?;
       break Some(ControlFlow::Fallthrough);
     }
+    *agg = saved;
     matched.push(cand_children.next().unwrap());
     cand_children.peek()?;
   }
